@@ -61,6 +61,9 @@ def main(tier, seed):
                                                "attribute and first key, built in this order from the same builders)"})
     ebad, edited_checked = qtie.edited_point_check(tf, qs[:n_exh], built[:n_exh], univ)
     direct_bad += [dict(x, point=x["point_after_edit"], implementation=x["same_object_after"], documented_meaning=x["fresh_equal_query_after"]) for x in ebad]
+    dbad, derived_checked = qtie.derived_check(tf, qs[:n_exh], univ)
+    direct_bad += [dict(x, point="(every 24th point of the universe)", implementation=[x.get("q_after"), x.get("holders_after"), x.get("d"), x.get("e")],
+                        documented_meaning=[x.get("q_before"), x.get("holders_before"), x.get("fresh_q_and_c"), x.get("fresh_q_or_c")]) for x in dbad]
     # test functions that tell apart values that compare equal (3 / 3.0, 0.0 / -0.0, one instant in two zones): ONE query object asked about one and
     # then the other, in both orders - whatever it remembers about a value must not answer for another value that merely compares equal
     import math as _math
@@ -113,7 +116,7 @@ def main(tier, seed):
                       "what_no_longer_checks": "correspondence Query.eval (theorems C09_*) vs SimpleQuery/CompoundQuery.__call__",
                       "disagreeing_queries": len(mism)}, no_input=True)
     ck.cov = {
-        "same_object_after_in_place_edit_checked": edited_checked, "type_sensitive_tests_checked": sens_checked,
+        "same_object_after_in_place_edit_checked": edited_checked, "queries_unchanged_by_deriving_from_them_checked": derived_checked, "type_sensitive_tests_checked": sens_checked,
         "translator": {"source": "tinyflux/queries.py: every place a query object gets its _hash key, its test operator, its == -> coq/gen/QueryGen.v (regenerated on this run)",
                        "refused": refused, "equivalence_theorems": "enc_eqb, gen_qhash_eq, gen_qeq_eq, gen_tables (proofs/QueryGenP.v)"},
         "obligations": b["obligations"], "discharged": b["discharged"],
